@@ -8,7 +8,10 @@
    removed or mis-sized wipe breaks these theorems at the next run.  Whether the compiler keeps
    the wipe is a property of the binary: decided by the wrapped-free observation in areas/aes.py. *)
 From Coq Require Import NArith List.
-From LCP Require Import Gen.Repo_aes Crypto.AesWipe Crypto.AesRepo Crypto.AesWipeProofs.
+From LCP Require Import Gen.Repo_aes.
+From LCP Require Import Crypto.AesWipe.
+From LCP Require Import Crypto.AesRepo.
+From LCP Require Import Crypto.AesWipeProofs.
 
 Theorem C20_key_free_aesni_zero : released_zeroed x_key_free_aesni.
 Proof. exact key_free_aesni_zero. Qed.
